@@ -70,11 +70,13 @@ SeedNorm(given, neg, mag, n) ==
 
 \* argument verdict (the code normalises the seed first, then checks len, then order)
 \* lenKind in {"none","int","float","str","bool"}, lenSign in {-1,0,1}
-Verdict(order, lenKind, lenSign) ==
-  IF lenKind \notin {"none", "int", "bool"} THEN "TypeError"
-  ELSE IF lenKind \in {"int", "bool"} /\ lenSign <= 0 THEN "ValueError"
-  ELSE IF order \notin Orders THEN "ValueError"
-  ELSE "ok"
+\* admissible outcomes of the argument validation: each fault has its documented error; when several arguments are
+\* faulty at once the statement does not say which is reported first, so any of their errors is admissible
+Verdicts(order, lenKind, lenSign) ==
+  LET faults == (IF lenKind \notin {"none", "int", "bool"} THEN {"TypeError"} ELSE {})
+                \cup (IF lenKind \in {"int", "bool"} /\ lenSign <= 0 THEN {"ValueError"} ELSE {})
+                \cup (IF order \notin Orders THEN {"ValueError"} ELSE {})
+  IN  IF faults = {} THEN {"ok"} ELSE faults
 
 \* ---- integer form for small orders ----
 StepInt(s, n, t) == ((2 * s) + (((s \div Pow2(n - 1)) + (s \div Pow2(t - 1))) % 2)) % Pow2(n)
